@@ -190,3 +190,11 @@ def add_clock(rng, sc):
         sc['times'], sc['fired'] = world.faulty_clock(rng, sc['n'], kinds=[k for k in ('jitter_in', 'jitter_out', 'offset', 'float_stamps')
                                                                           if rng.random() < 0.35])
     return sc
+
+
+def ref_defined_on_prefixes(asts, data, n):
+    """an online monitor sees every prefix of the trace: all of them must be defined"""
+    for m in range(1, n + 1):
+        if not ref_defined(asts, False, dict((v, data[v][:m]) for v in data), m):
+            return False
+    return True
